@@ -1,6 +1,7 @@
 import EudoxiaModel.Model.Profile
 import EudoxiaModel.Model.Pool
 import EudoxiaModel.Proofs.Profile
+import EudoxiaModel.Proofs.SpecRun
 /-! # C05 — container execution follows the documented time and memory model
 
 The documented model is the specification `specRun` (Model/Profile.lean), which does not mention the tick generator;
@@ -166,6 +167,92 @@ theorem oom_at_first_excess (cfg : Cfg) (n : Nat) (w : Store) (c : Ctr) (cons : 
   rw [← a4] at hex
   obtain ⟨d1, d2, d3, d4⟩ := b6 hex
   exact ⟨d1, d2, by rw [b2, d2]; exact hex, d3, d4, by omega⟩
+
+/-- **the specification's summary is what the container does.**  Let `S = specRun cfg cpu ram ops` be the documented run of the operators of an
+assignment (memory held after each tick, the tick in which the result is reported, the verdict) and `c` the container the pool creates for that
+assignment.  Then, whenever the ticks themselves succeed (they do on consistent state: C08): strictly before `S.endTick` the container is running,
+neither complete nor stopped, and after its `n`-th tick it holds exactly `S.mem[n-1]`; if `S.ok`, the `S.endTick`-th tick completes it (holding
+nothing) and no earlier one does; if not, the `S.endTick`-th tick stops it holding more than its allocation — the out-of-memory failure the pool
+reports in that tick — and no earlier one does.  So the record the correspondence check compares with the code is a consequence of
+`Container.tick`, not a second description that could drift from it. -/
+theorem specification_summary_is_what_the_container_does (cfg : Cfg) (w : Store) (cid : Nat) (a : Asg)
+    (hseg : ∀ r ∈ a.ops, w.segsOf r ≠ []) :
+    let c := mkCtr w cid a
+    let S := specRun cfg a.cpu a.ram (a.ops.map (fun r => w.segsOf r))
+    S.mem.length = S.endTick - 1 ∧
+    (∀ n cons w' c' cons', 1 ≤ n → n < S.endTick → runN cfg n w c cons = .ok (w', c', cons') →
+        c'.mem = S.mem.getD (n - 1) 0 ∧ c'.mem ≤ c'.ram ∧ c'.completed = false ∧ c'.frozen = false ∧ c'.elapsed = n) ∧
+    (S.ok = true → ∀ cons w' c' cons', runN cfg S.endTick w c cons = .ok (w', c', cons') →
+        (1 ≤ S.endTick → c'.completed = true ∧ c'.mem = 0) ∧ c'.frozen = false ∧ c'.elapsed = S.endTick) ∧
+    (S.ok = false → ∀ cons w' c' cons', runN cfg S.endTick w c cons = .ok (w', c', cons') →
+        c'.frozen = true ∧ c'.ram < c'.mem ∧ c'.completed = false ∧ c'.elapsed = S.endTick) := by
+  intro c S
+  obtain ⟨hf, hc, hp, _, hel, hram, hD⟩ := new_container_has_the_documented_demands cfg w cid a
+  have hsegc : ∀ o ∈ c.pos.ops, o.2 ≠ [] := by
+    intro o ho
+    simp only [c, mkCtr, mkPos, List.mem_map] at ho
+    obtain ⟨r, hr, rfl⟩ := ho
+    exact hseg r hr
+  have hD' : (remL cfg c).map (fun x => ((a.ops.map (fun r => w.segsOf r)).length - 1 - x.1, x.2)) =
+      ctrDemands cfg (a.ops.map (fun r => w.segsOf r)) (specTicks cfg a.cpu (a.ops.map (fun r => w.segsOf r))) := hD
+  obtain ⟨s1, s2, s3, s4⟩ := specRunWith_summary cfg a.ram (a.ops.map (fun r => w.segsOf r)) (specTicks cfg a.cpu (a.ops.map (fun r => w.segsOf r)))
+    (remL cfg c) hD'
+  have hcr : c.ram = a.ram := hram
+  have hkle := takeWhile_length_le (fun x : Nat × Nat => decide (x.2 ≤ a.ram)) (remL cfg c)
+  have hfit : ∀ n, n ≤ ((remL cfg c).takeWhile (fun x => decide (x.2 ≤ a.ram))).length → ∀ x ∈ (remL cfg c).take n, x.2 ≤ c.ram := by
+    intro n hn x hx
+    have := takeWhile_all (fun x : Nat × Nat => decide (x.2 ≤ a.ram)) (remL cfg c) n hn x hx
+    rw [hcr]; simpa using this
+  refine ⟨s3, ?_, ?_, ?_⟩
+  · intro n cons w' c' cons' h1 hlt h
+    have hnk : n ≤ ((remL cfg c).takeWhile (fun x => decide (x.2 ≤ a.ram))).length ∧ n < (remL cfg c).length := by
+      change n < (specRunWith _ _ _ _).endTick at hlt
+      rw [s2] at hlt
+      split at hlt <;> omega
+    obtain ⟨_, b2, b3, b4, _, _, _, b8⟩ := run_follows_demands cfg n w c cons w' c' cons' hf hc hp hsegc (by omega) (hfit n hnk.1) h
+    obtain ⟨b9, b10⟩ := b8 h1
+    have hne : ¬ n = (remL cfg c).length := by omega
+    rw [if_neg hne] at b10
+    have hmem : c'.mem = S.mem.getD (n - 1) 0 := by
+      rw [b10]; symm
+      exact s4 (n - 1) (by rw [s3]; change n < (specRunWith _ _ _ _).endTick at hlt; omega)
+    refine ⟨hmem, ?_, ?_, b3, by rw [b2, hel]; omega⟩
+    · rw [b10, b4]
+      have : (remL cfg c).getD (n - 1) (0, 0) ∈ (remL cfg c).take n := by
+        rw [List.getD_eq_getElem?_getD, List.getElem?_eq_getElem (by omega)]
+        simp only [Option.getD_some]
+        rw [List.mem_take_iff_getElem]
+        exact ⟨n - 1, by omega, rfl⟩
+      exact hfit n hnk.1 _ this
+    · cases hcc : c'.completed with
+      | false => rfl
+      | true => exact absurd (b9.mp hcc) hne
+  · intro hok cons w' c' cons' h
+    have hall := s1.mp hok
+    have hend : S.endTick = (remL cfg c).length := by
+      change (specRunWith _ _ _ _).endTick = _
+      rw [s2, if_pos hall]
+    rw [hend] at h ⊢
+    obtain ⟨_, b2, b3, _, _, _, _, b8⟩ := run_follows_demands cfg _ w c cons w' c' cons' hf hc hp hsegc (Nat.le_refl _) (hfit _ (by omega)) h
+    refine ⟨fun h1 => ?_, b3, by rw [b2, hel]; omega⟩
+    obtain ⟨b9, b10⟩ := b8 h1
+    exact ⟨b9.mpr rfl, by rw [b10, if_pos rfl]⟩
+  · intro hok cons w' c' cons' h
+    have hall : ¬ ((remL cfg c).takeWhile (fun x => decide (x.2 ≤ a.ram))).length = (remL cfg c).length := by
+      intro e; have h2 : S.ok = true := s1.mpr e; rw [hok] at h2; cases h2
+    have hend : S.endTick = ((remL cfg c).takeWhile (fun x => decide (x.2 ≤ a.ram))).length + 1 := by
+      change (specRunWith _ _ _ _).endTick = _
+      rw [s2, if_neg hall]
+    rw [hend, runN_snoc] at h
+    rw [hend]
+    split at h
+    · cases h
+    · rename_i w1 c1 cons1 h1
+      have hstop := takeWhile_stop (fun x : Nat × Nat => decide (x.2 ≤ a.ram)) (0, 0) (remL cfg c) (by omega)
+      have hex : c.ram < ((remL cfg c).getD ((remL cfg c).takeWhile (fun x => decide (x.2 ≤ a.ram))).length (0, 0)).2 := by
+        rw [hcr]; simpa using hstop
+      obtain ⟨d1, _, d3, d4, _, d6⟩ := oom_at_first_excess cfg _ w c cons w1 c1 cons1 w' c' cons' hf hc hp hsegc (by omega) (hfit _ (Nat.le_refl _)) hex h1 h
+      exact ⟨d1, d3, d4, by rw [d6, hel]; omega⟩
 
 /-- the specification on a small example: two operators (3 I/O ticks growing by g, then 2 CPU ticks at the amount read; then fixed memory),
     success after the summed tick count -/
